@@ -20,8 +20,9 @@ EXTENDS PyTree
 CONSTANTS CtxOn,        \* names of the contexts to use
           ExprOn,       \* names of the plugged expressions to use
           ParenKinds,   \* subset of {"none", "root1", "root2", "kid1", "rootkid"}
-          GapKinds,     \* subset of {"cmt", "nl", "cont", "cmtline", "blank"}
-          CmtTexts,     \* comment texts
+          GapKinds,     \* subset of {"cmt", "nl", "cont", "cmtline", "blank", "ffline"}
+          CmtTexts,     \* comment texts; <ff> <vt> <fs> <nel> <ls> stand for the characters U+000C, U+000B,
+                        \* U+001C, U+0085, U+2028, which str.splitlines takes for line ends but Python does not
           Styles,       \* subset of {"tight", "house", "wide"}
           MaxGaps,      \* decorated gaps per behaviour (0..2)
           Sim           \* TRUE: Decorate draws its choices at random
@@ -319,13 +320,16 @@ GapLegal(l, g, kind) ==
           [] kind = "cont"    -> ~lineEnd
           [] kind = "cmtline" -> lineEnd /\ depth = 0 /\ g <= n
           [] kind = "blank"   -> lineEnd /\ depth = 0 /\ g <= n
+          [] kind = "ffline"  -> lineEnd /\ depth = 0 /\ g <= n      \* a line holding only a form feed
 
 \* the gaps worth decorating: around the plugged expression and inside it
 HoleSpan(l, h) == CHOOSE s \in l.sp : s.p = h
 NearGaps(l, h) ==
   LET s == HoleSpan(l, h)
       n == Len(l.toks)
-  IN {g \in {s.pa, s.pa + 1, s.a + 1, s.b, s.b + 1, s.pb + 1, s.pb + 2, n + 1} : g >= 2 /\ g <= n + 1}
+      \* the end of the first line: layout there comes before everything else in the module
+      firstEnd == {g \in 2..n : l.toks[g].d >= 0 /\ \A j \in 2..(g - 1) : l.toks[j].d < 0}
+  IN {g \in {s.pa, s.pa + 1, s.a + 1, s.b, s.b + 1, s.pb + 1, s.pb + 2, n + 1} \cup firstEnd : g >= 2 /\ g <= n + 1}
 
 GapChoices(l, h) ==
   { [at |-> g, kind |-> k, txt |-> (IF k \in {"cmt", "cmtline"} THEN txt ELSE "")] :
